@@ -136,6 +136,20 @@ def check(P, R):
     ok = len(apps) >= 2 and all(isinstance(c.args[0], ast.List) and len(c.args[0].elts) == 2 and src(c.args[0].elts[0]) == roles['cursor'] for c in apps)
     R.ob('C11.f', gt, apps[0] if apps else gt.node, ok, text=f'{len(apps)} sites append [position, hooks] in descent order', detail='' if ok else
          'hooks are not collected as [path position, hooks] after each consumed key')
+    # the position recorded with a hook is the cursor *after* the key / value of that node was consumed
+    gg = gt.cfg
+    cur_assigns = [n for n in gg.nodes if n.kind == 'stmt' and isinstance(n.ast, ast.Assign) and any(isinstance(t, ast.Name) and t.id == roles['cursor'] for t in n.ast.targets)]
+    inner_loops = [w for w in walk_shallow(gt.node) if isinstance(w, ast.While) and compare_parts(w.test) and compare_parts(w.test)[1] is ast.Lt]
+    for c in apps:
+        if not (T.loops_of(c) and inner_loops and T._inside(c, inner_loops[0].body)):
+            continue
+        an = gg.node_of_stmt(c)[0]
+        head = gg.nodes_for(inner_loops[0].test)[0]
+        ok = all(s is an or not gg.can_reach(s, an, avoid_nodes=cur_assigns + [head]) for s in T.succ_by_label(head, 'true'))
+        R.ob('C11.f', gt, c, ok, text=f'{short(c)} after the cursor moved past this node', detail='' if ok else
+             'the hook position is recorded before the cursor was advanced past the node\'s key / wildcard value: the hook receives the path prefix without '
+             'the segment its rule ends with (/user/ instead of /user/42)',
+             why='a hook fires with the matched path prefix', key_extra='pos-after-consume')
     for c in apps:
         t = enclosing(c, ast.If)
         okh = t is not None and isinstance(t.test, ast.Name) and any(
@@ -214,6 +228,22 @@ def check_pairing(P, R):
              'on some path (removal by name or by route object) other names registered for the removed route survive in '
              'named_routes: router[name] returns a route that no longer resolves',
              why='lookups by name and by rule agree with a freshly built router', key_extra='names')
+    # prefix removal: the names are dropped for exactly the set of patterns dropped from the routes index
+    for comp in [x for x in walk_shallow(rm.node) if isinstance(x, (ast.ListComp, ast.For))]:
+        pops_ = [c for c in ast.walk(comp) if isinstance(c, ast.Call) and dotted(c.func) == 'self.routes.pop']
+        if not pops_:
+            continue
+        it_ = comp.generators[0].iter if isinstance(comp, ast.ListComp) else comp.iter
+        if not isinstance(it_, ast.Name):
+            continue
+        cn_ = g.node_of_stmt(comp)[0]
+        name_calls = [c for c in walk_shallow(rm.node) if isinstance(c, ast.Call) and dotted(c.func) == 'self._remove_named_routers']
+        good = [g.node_of_stmt(c)[0] for c in name_calls if c.args and it_.id in names_loaded(c.args[0])]
+        ok = bool(good) and not g.can_reach(cn_, g.exit, avoid_nodes=good, labels_skip=('exc',))
+        R.ob('C11.d', rm, comp, ok, text=f'prefix removal: names dropped for the same pattern list `{it_.id}` that is popped from the routes index', detail='' if ok else
+             f'after a prefix (wildcard) removal the name cleanup is not given the list of removed patterns `{it_.id}`: named routes under the prefix stay in '
+             f'named_routes and router[name] returns a route that no longer resolves',
+             why='lookups by name agree with a freshly built router', key_extra='prefix-names')
     # _remove_named_routers removes by pattern membership
     rn = cls_.methods['_remove_named_routers']
     ok = any(isinstance(x, ast.Call) and dotted(x.func) == 'self.named_routes.pop' for x in ast.walk(rn.node)) and 'pattern' in src(rn.node)
